@@ -13,8 +13,8 @@ META = {
         "call graph that goes through a rule-name lookup passes a function that tests a visited/active set; (panic) census of "
         "unwrap/expect/panic-family sites in non-test code against a reviewed table with local proofs; (index) census of "
         "index/slice expressions against the frozen reviewed baseline; (rerender) no AST child is rendered twice on one path "
-        "of a Display impl (exponential printing); (arith) overflow-checked arithmetic on document/schema numbers in the "
-        "validators is checked_* or widened. Time bounds and absolute stack depth are not decided."),
+        "of a Display impl (exponential printing); (progress) the occurrence loop of the sequence matcher ends after one "
+        "zero-width iteration. Arithmetic overflow in the validators, time bounds and absolute stack depth are not decided."),
     "assumptions": ["dependencies return Err instead of panicking (trusted)", "name-based call resolution covers free functions and self methods (strong edges)"],
     "trusted_base": ["syn 2 parser", "lib/cg.py", "lib/absint.py", "spec/c05_*.json reviewed tables"],
     "technique": "static analysis: taint via abstract interpretation, call-graph cycle rule, census against reviewed tables, path rule on Display bodies",
